@@ -84,8 +84,21 @@ fn run<F: FMIndexable, S: SuffixArray>(fm: &F, sa: &RawSuffixArray, ssa: &S, c: 
             ensure!(iv.lower <= iv.upper && iv.upper <= n, "{}: {} interval {:?} not inside 0..{}; expected {}", ctx(), what, iv, n, expect_desc);
             let raw = sorted(iv.occ(sa));
             ensure!(raw == best_occ, "{}: {} interval {:?} maps through the suffix array to {:?}; expected {}", ctx(), what, iv, raw, expect_desc);
-            let smp = sorted(iv.occ(ssa));
-            ensure!(smp == best_occ, "{}: {} interval {:?} maps through the SAMPLED suffix array (rate {}) to {:?}; expected {}", ctx(), what, iv, c.sa_rate, smp, expect_desc);
+            // resolving one row through the sampled array costs up to sa_rate LF steps of up to k byte
+            // counts each: for big intervals with sparse sampling only a spread of rows is resolved
+            let rows = iv.upper - iv.lower;
+            let per_row = (c.sa_rate.min(n) as u64) * ((c.k as usize).min(n) as u64);
+            if rows as u64 * per_row <= 40_000_000 {
+                let smp = sorted(iv.occ(ssa));
+                ensure!(smp == best_occ, "{}: {} interval {:?} maps through the SAMPLED suffix array (rate {}) to {:?}; expected {}", ctx(), what, iv, c.sa_rate, smp, expect_desc);
+            } else {
+                let allowed = ((40_000_000 / per_row.max(1)) as usize).max(3);
+                let step = (rows / allowed).max(1);
+                for r in (iv.lower..iv.upper).step_by(step).chain(std::iter::once(iv.upper - 1)) {
+                    let (a, b) = (ssa.get(r), sa.get(r));
+                    ensure!(a == b, "{}: {} interval {:?}: row {} resolves to {:?} through the SAMPLED suffix array (rate {}), {:?} through the full one", ctx(), what, iv, r, a, c.sa_rate, b);
+                }
+            }
             Ok(())
         };
         match got {
@@ -469,10 +482,416 @@ fn enumerate(t: Tier) -> Box<dyn Iterator<Item = Case>> {
     }))
 }
 
+// ---------------------------------------------------------------------------
+// LARGE-SCALE sub-check: text length, pattern length, matched length of a Partial result, interval
+// size (number of rows with the same preceding symbol), number of sequences, Occ rate and suffix array
+// sampling rate across the ladder 255 .. 2^20 (see oracles/scale.rs). Cases are generator parameters.
+// Oracle: Z-function over reverse(pattern) # reverse(text): longest occurring pattern suffix and all its
+// occurrences in O(n + m); cross-checked against the naive scan on a truncated copy inside every case.
+
+pub mod large {
+    use super::*;
+    use crate::c0306_ladder_labels;
+    use crate::fail;
+    use crate::oracles::sa as sao;
+    use crate::oracles::scale::c0306::{add_group, ladder, longest_suffix_occurrences, mix, Kind, LadderSub, Sent, Sm64, TextSpec};
+
+    pub const N_LABELS: [&str; 12] = c0306_ladder_labels!("n");
+    pub const M_LABELS: [&str; 12] = c0306_ladder_labels!("pattern length");
+    pub const L_LABELS: [&str; 12] = c0306_ladder_labels!("Partial length l");
+    pub const IV_LABELS: [&str; 12] = c0306_ladder_labels!("interval size");
+    pub const SEQ_LABELS: [&str; 12] = c0306_ladder_labels!("sentinel occurrences");
+    pub const K_LABELS: [&str; 12] = c0306_ladder_labels!("Occ rate k");
+    pub const S_LABELS: [&str; 12] = c0306_ladder_labels!("SA sampling rate");
+
+    #[derive(Serialize, Deserialize, Debug, Clone)]
+    pub enum Pat {
+        /// the text symbols from `start` (a fraction of the text) on, sentinels dropped, `len` of them;
+        /// with `subst = Some(d)` the symbol d places before the last one is replaced by another alphabet symbol
+        /// (so a suffix of length >= d still occurs)
+        Sub { start: u16, len: usize, subst: Option<usize> },
+        /// uniform over the non-sentinel alphabet
+        Rand { len: usize, seed: u64 },
+        /// `len` copies of the rank-th alphabet symbol
+        Homo { rank: u8, len: usize },
+    }
+
+    #[derive(Serialize, Deserialize, Debug, Clone)]
+    pub struct Case {
+        pub text: TextSpec,
+        /// add one symbol that does not occur in the text to the index alphabet
+        pub extra_sym: bool,
+        /// put a `$` sentinel into the alphabet (other sentinels always are)
+        pub with_dollar: bool,
+        pub k: u32,
+        pub sa_rate: usize,
+        pub own: Own,
+        pub patterns: Vec<Pat>,
+        /// at most this many rows of one interval are resolved through the sampled suffix array
+        pub budget: usize,
+    }
+
+    fn pat_len(p: &Pat) -> usize {
+        match p {
+            Pat::Sub { len, .. } | Pat::Rand { len, .. } | Pat::Homo { len, .. } => *len,
+        }
+    }
+
+    fn build_pat(p: &Pat, text: &[u8], syms: &[u8]) -> Vec<u8> {
+        let n = text.len();
+        let sentinel = text[n - 1];
+        let mut v: Vec<u8> = match p {
+            Pat::Rand { len, seed } => {
+                let mut rng = Sm64::new(*seed);
+                (0..*len).map(|_| syms[rng.below(syms.len())]).collect()
+            }
+            Pat::Homo { rank, len } => vec![syms[(*rank as usize).min(syms.len() - 1)]; *len],
+            Pat::Sub { start, len, subst } => {
+                let s = idx(*start, n - 1);
+                let mut v: Vec<u8> = text[s..].iter().cloned().filter(|&a| a != sentinel).take(*len).collect();
+                if let Some(d) = subst {
+                    if v.len() > *d {
+                        let at = v.len() - 1 - *d;
+                        let cur = syms.iter().position(|&a| a == v[at]).unwrap_or(0);
+                        // the last alphabet symbol is the absent one when the case has one
+                        v[at] = if syms.len() > 1 { syms[(cur + syms.len() - 1) % syms.len()] } else { v[at] };
+                    }
+                }
+                v
+            }
+        };
+        if v.is_empty() {
+            v.push(syms[0]);
+        }
+        v
+    }
+
+    struct Stats {
+        max_m: usize,
+        max_partial: usize,
+        max_iv: usize,
+        complete: bool,
+        partial: bool,
+        absent: bool,
+        longer: bool,
+        sampled_full: bool,
+        sampled_part: bool,
+    }
+
+    fn run<F: FMIndexable, S: SuffixArray>(fm: &F, sa: &RawSuffixArray, ssa: &S, c: &Case, text: &[u8], pats: &[Vec<u8>], walk_cost: usize, st: &mut Stats) -> Result<(), Stop> {
+        let n = text.len();
+        for (pi, p) in pats.iter().enumerate() {
+            let m = p.len();
+            let (best, best_occ) = longest_suffix_occurrences(p, text);
+            let got = fm.backward_search(p.iter());
+            let ctx = || format!("text {:?} k={} sa_rate={} {:?} pattern #{} {:?} = {} (length {})", c.text, c.k, c.sa_rate, c.own, pi, c.patterns[pi], sao::show(p), m);
+            let expect_desc = if best == m {
+                format!("Complete with {} occurrences {}", best_occ.len(), sao::show_vec(&best_occ))
+            } else if best == 0 {
+                "Absent".to_string()
+            } else {
+                format!("Partial(l={}) with {} occurrences {}", best, best_occ.len(), sao::show_vec(&best_occ))
+            };
+            let mut check_iv = |iv: &Interval, what: &str| -> Result<(), Stop> {
+                ensure!(iv.lower <= iv.upper && iv.upper <= n, "{}: {} interval {:?} not inside 0..{}; expected {}", ctx(), what, iv, n, expect_desc);
+                let raw = sorted(iv.occ(sa));
+                ensure!(raw == best_occ, "{}: {} interval {:?} maps through the suffix array to {} positions {}; expected {}", ctx(), what, iv, raw.len(), sao::show_vec(&raw), expect_desc);
+                let size = iv.upper - iv.lower;
+                let units = c.budget as u64 * 400;
+                if (size as u64) * (walk_cost as u64).max(1) <= units {
+                    let smp = sorted(iv.occ(ssa));
+                    ensure!(smp == best_occ, "{}: {} interval {:?} maps through the SAMPLED suffix array (rate {}) to {}; expected {}", ctx(), what, iv, c.sa_rate, sao::show_vec(&smp), expect_desc);
+                    st.sampled_full = true;
+                } else {
+                    // sub-intervals: both ends and around every ladder offset
+                    let w = ((units / 10 / (walk_cost as u64).max(1)) as usize).clamp(2, 64).min(size);
+                    let mut starts: Vec<usize> = vec![iv.lower, iv.upper - w];
+                    for v in ladder(size) {
+                        starts.push((iv.lower + v).saturating_sub(w / 2).min(iv.upper - w));
+                    }
+                    starts.dedup();
+                    starts.truncate(10);
+                    for a in starts {
+                        let part = Interval { lower: a, upper: a + w };
+                        let smp = part.occ(ssa);
+                        ensure!(smp[..] == sa[a..a + w], "{}: rows {}..{} of the {} interval {:?} map through the SAMPLED suffix array (rate {}) to {} but the suffix array has {}", ctx(), a, a + w, what, iv, c.sa_rate, sao::show_vec(&smp), sao::show_vec(&sa[a..a + w]));
+                    }
+                    st.sampled_part = true;
+                }
+                st.max_iv = st.max_iv.max(size);
+                Ok(())
+            };
+            match got {
+                BackwardSearchResult::Complete(iv) => {
+                    ensure!(best == m, "{}: got Complete({:?}); expected {}", ctx(), iv, expect_desc);
+                    check_iv(&iv, "Complete")?;
+                }
+                BackwardSearchResult::Partial(iv, l) => {
+                    ensure!(best > 0 && best < m && l == best, "{}: got Partial({:?}, l={}); expected {}", ctx(), iv, l, expect_desc);
+                    check_iv(&iv, "Partial")?;
+                }
+                BackwardSearchResult::Absent => {
+                    ensure!(best == 0, "{}: got Absent; expected {}", ctx(), expect_desc);
+                }
+            }
+            st.max_m = st.max_m.max(m);
+            if best > 0 && best < m {
+                st.max_partial = st.max_partial.max(best);
+                st.partial = true;
+            }
+            st.complete |= best == m;
+            st.absent |= best == 0;
+            st.longer |= m > n;
+        }
+        // the trait's accessors
+        ensure!(fm.bwt().len() == n, "FMIndexable::bwt(): {:?}: length {} expected {}", c.text, fm.bwt().len(), n);
+        let b = fm.bwt().clone();
+        let mut rng = Sm64::new(mix(c.text.seed, 0xacce55));
+        for j in 0..6 {
+            let r = if j == 0 { n - 1 } else { rng.below(n) };
+            let a = text[rng.below(n)];
+            let want = b[..=r].iter().filter(|&&x| x == a).count();
+            let got = fm.occ(r, a);
+            ensure!(got == want, "FMIndexable::occ: {:?} k={}: occ({}, {:#04x})={} but bwt[0..={}] contains it {} times", c.text, c.k, r, a, got, r, want);
+            let smaller = text.iter().filter(|&&x| x < a).count();
+            ensure!(fm.less(a) == smaller, "FMIndexable::less: {:?}: less({:#04x})={} but {} text symbols are smaller", c.text, a, fm.less(a), smaller);
+        }
+        Ok(())
+    }
+
+    /// the fast oracle against the naive scan on a truncated copy of the case
+    fn selfcheck(text: &[u8], pats: &[Vec<u8>]) -> Result<(), Stop> {
+        let n = text.len();
+        let sentinel = text[n - 1];
+        let mut small: Vec<u8> = text[..(n - 1).min(160)].to_vec();
+        small.push(sentinel);
+        for p in pats {
+            let q = &p[p.len() - p.len().min(9)..];
+            let m = q.len();
+            let mut best = 0usize;
+            let mut occ: Vec<usize> = Vec::new();
+            for j in 1..=m {
+                let o = naive_find(&q[m - j..], &small);
+                if o.is_empty() {
+                    break;
+                }
+                best = j;
+                occ = o;
+            }
+            let fast = longest_suffix_occurrences(q, &small);
+            ensure!(fast == (best, occ.clone()), "harness: oracle self-check: Z-function oracle says {:?}, naive scan says {:?} for pattern {:?} in text {:?}", fast, (best, occ), lossy(q), lossy(&small));
+        }
+        Ok(())
+    }
+
+    pub fn check(c: &Case) -> R {
+        let Some(text) = c.text.build() else { fail!("harness: {:?} does not describe a text", c.text) };
+        let n = text.len();
+        let sentinel = text[n - 1];
+        ensure!(text.iter().all(|&a| a >= sentinel), "harness: sentinel is not the smallest symbol of {:?}", c.text);
+        ensure!(c.k >= 1 && c.sa_rate >= 1 && !c.patterns.is_empty() && c.budget >= 16, "harness: rates/patterns/budget of {:?}", c);
+        // index alphabet: non-sentinel text symbols (+ one absent symbol); sentinel unless it is an omitted `$`
+        let mut present = [false; 256];
+        for &a in &text {
+            present[a as usize] = true;
+        }
+        let mut syms: Vec<u8> = (0..256usize).filter(|&a| present[a] && a as u8 != sentinel).map(|a| a as u8).collect();
+        if c.extra_sym || syms.is_empty() {
+            // the largest byte above the sentinel that is not in the text
+            match (sentinel as usize + 1..256).rev().find(|&a| !present[a]) {
+                Some(a) => syms.push(a as u8),
+                None => ensure!(!syms.is_empty(), "harness: no symbol left for {:?}", c.text),
+            }
+        }
+        let mut alpha = syms.clone();
+        if sentinel != b'$' || c.with_dollar {
+            alpha.push(sentinel);
+        }
+        let pats: Vec<Vec<u8>> = c.patterns.iter().map(|p| build_pat(p, &text, &syms)).collect();
+        for p in &pats {
+            ensure!(!p.is_empty() && p.iter().all(|&a| a != sentinel && syms.contains(&a)), "harness: pattern outside the domain in {:?}", c);
+        }
+        selfcheck(&text, &pats)?;
+
+        let alphabet = Alphabet::new(alpha.iter());
+        let sa = suffix_array(&text);
+        ensure!(sa.len() == n && sa.iter().all(|&p| p < n), "suffix_array: {:?}: not an array of {} text positions", c.text, n);
+        let bw = bwt(&text, &sa);
+        let le = less(&bw, &alphabet);
+        let oc = Occ::new(&bw, c.k, &alphabet);
+        let multi = text.iter().filter(|&&a| a == sentinel).count();
+        // expected LF-walk length of one row through the sampled array times the cost of one Occ::get
+        let walk_cost = c.sa_rate.min(n) * (c.k as usize / 48 + 15) / 15;
+        let mut st = Stats { max_m: 0, max_partial: 0, max_iv: 0, complete: false, partial: false, absent: false, longer: false, sampled_full: false, sampled_part: false };
+        match c.own {
+            Own::Borrowed => {
+                let fm = FMIndex::new(&bw, &le, &oc);
+                let ssa = sa.sample(&text, &bw, &le, &oc, c.sa_rate);
+                run(&fm, &sa, &ssa, c, &text, &pats, walk_cost, &mut st)?;
+            }
+            Own::Owned => {
+                let fm = FMIndex::new(bw.clone(), le.clone(), oc.clone());
+                let ssa = sa.sample(&text, bw.clone(), le.clone(), oc.clone(), c.sa_rate);
+                run(&fm, &sa, &ssa, c, &text, &pats, walk_cost, &mut st)?;
+            }
+            Own::Arc => {
+                let (b, l, o) = (Arc::new(bw), Arc::new(le), Arc::new(oc));
+                let fm = FMIndex::new(b.clone(), l.clone(), o.clone());
+                let ssa = sa.sample(&text, b.clone(), l.clone(), o.clone(), c.sa_rate);
+                run(&fm, &sa, &ssa, c, &text, &pats, walk_cost, &mut st)?;
+            }
+        }
+
+        let mut pass = Pass::new(st.max_iv >= 2 || st.max_partial >= 2);
+        add_group(&mut pass, &N_LABELS, n);
+        add_group(&mut pass, &M_LABELS, st.max_m);
+        for p in &pats {
+            add_group(&mut pass, &M_LABELS, p.len());
+        }
+        add_group(&mut pass, &L_LABELS, st.max_partial);
+        add_group(&mut pass, &IV_LABELS, st.max_iv);
+        add_group(&mut pass, &SEQ_LABELS, multi);
+        add_group(&mut pass, &K_LABELS, c.k as usize);
+        add_group(&mut pass, &S_LABELS, c.sa_rate);
+        pass.add_if(st.max_iv > 255, "interval of >255 rows");
+        pass.add_if(st.max_iv > 65_535, "interval of >65535 rows");
+        pass.add_if(st.max_partial > 255, "Partial with l>255");
+        pass.add_if(st.max_partial > 65_535, "Partial with l>65535");
+        pass.add_if(st.complete, "Complete");
+        pass.add_if(st.partial, "Partial");
+        pass.add_if(st.absent, "Absent");
+        pass.add_if(st.longer, "pattern longer than text");
+        pass.add_if(st.sampled_full, "whole interval through the sampled SA");
+        pass.add_if(st.sampled_part, "sub-intervals through the sampled SA");
+        pass.add_if(multi >= 2, "multi-sentinel text");
+        pass.add_if(sentinel == b'$' && !alpha.contains(&b'$'), "$ sentinel not in the alphabet");
+        pass.add_if(c.own == Own::Borrowed, "borrowed");
+        pass.add_if(c.own == Own::Owned, "owned");
+        pass.add_if(c.own == Own::Arc, "Arc");
+        Ok(pass)
+    }
+
+    pub fn weight(c: &Case) -> u64 {
+        let n = c.text.n as u64;
+        let pl: u64 = c.patterns.iter().map(|p| pat_len(p) as u64).sum();
+        n * 2 + c.patterns.len() as u64 * n * 2 + pl * (c.k as u64 / 48 + 15) / 8 + 2000
+    }
+
+    fn mk(text: TextSpec, i: usize, k: u32, sa_rate: usize, patterns: Vec<Pat>) -> Case {
+        // both rates huge: every resolved row would cost ~0.1 s
+        let sa_rate = if k > 4096 && sa_rate > 4096 { 32 } else { sa_rate };
+        Case { text, extra_sym: i % 3 != 0, with_dollar: i % 2 == 0, k, sa_rate, own: [Own::Borrowed, Own::Owned, Own::Arc][i % 3], patterns, budget: 600 }
+    }
+
+    pub fn cases(t: Tier, seed: u64) -> Vec<Case> {
+        let mut v = Vec::new();
+        let reps = if t == Tier::Quick { 1 } else { 6 };
+        let dna = |kind: Kind, n: usize, sigma: u16, sent: Sent, s: u64| TextSpec { kind, n, sigma, sent, sentinel: b'$', dna: true, seed: s };
+        let ks: [u32; 8] = [1, 3, 64, 65, 128, 257, 4097, 65_537];
+        let ss: [usize; 6] = [1, 2, 32, 257, 4097, 65_537];
+        for rep in 0..reps {
+            let sd = |x: u64| mix(seed, 0xc05_0 + x * 1000 + rep as u64);
+            let mut i = 0usize;
+            // (1) text length ladder; also the whole text body as one pattern (m = n-1)
+            for (vi, &n) in ladder(1 << 21).iter().enumerate() {
+                let s = sd(vi as u64);
+                let huge = n > 131_073;
+                let mut texts = vec![dna(Kind::Random, n, 4, Sent::Single, s), dna(Kind::Homo, n, 1, Sent::Single, s)];
+                if !huge || t == Tier::Thorough {
+                    texts.push(dna(Kind::Period(2), n, 4, Sent::Single, s));
+                    texts.push(dna(Kind::Random, n, 4, Sent::Random(n / 150 + 1), s));
+                    texts.push(dna(Kind::Period(7), n, 4, Sent::Every(8), s));
+                    texts.push(TextSpec { kind: Kind::Random, n, sigma: 200, sent: Sent::Even(3), sentinel: 0, dna: false, seed: s });
+                }
+                for text in texts {
+                    i += 1;
+                    let k = if huge { 64 } else { ks[i % 8] };
+                    let sr = if huge { 32 } else { ss[i % 6] };
+                    let pats = vec![
+                        Pat::Sub { start: 9000, len: 20, subst: None },
+                        Pat::Sub { start: 0, len: n, subst: None },
+                        Pat::Sub { start: 100, len: 300, subst: Some(257.min(n / 2)) },
+                        Pat::Sub { start: 30000, len: 7, subst: None },
+                        Pat::Homo { rank: 0, len: 1 },
+                        Pat::Homo { rank: 0, len: 2 },
+                        Pat::Homo { rank: 1, len: 300 },
+                        Pat::Rand { len: 12, seed: s },
+                        Pat::Homo { rank: 0, len: n + 5 },
+                    ];
+                    v.push(mk(text, i, k, sr, pats));
+                }
+            }
+            // (2) pattern length ladder: complete match, first symbol wrong (Partial l = m-1), mismatch in the middle
+            for (vi, &m) in ladder(1 << 19).iter().enumerate() {
+                let s = sd(200 + vi as u64);
+                let huge = m > 131_073;
+                let mut texts = vec![dna(Kind::Random, m + 1000, 4, Sent::Single, s), dna(Kind::Homo, m + 300, 1, Sent::Single, s)];
+                if !huge || t == Tier::Thorough {
+                    texts.push(dna(Kind::Period(2), m + 300, 4, Sent::Single, s));
+                    texts.push(dna(Kind::Fib, m + 300, 2, Sent::Single, s));
+                }
+                for text in texts {
+                    i += 1;
+                    let k = if m > 20_000 { [16u32, 64, 128][i % 3] } else { ks[i % 8] };
+                    let pats = vec![
+                        Pat::Sub { start: 300, len: m, subst: None },
+                        Pat::Sub { start: 300, len: m, subst: Some(m - 1) },
+                        Pat::Sub { start: 0, len: m, subst: Some(m / 2) },
+                        Pat::Homo { rank: 0, len: m },
+                    ];
+                    v.push(mk(text, i, k, ss[i % 5], pats));
+                }
+            }
+            // (3) matched length of a Partial result on the ladder
+            for (vi, &d) in ladder(131_073).iter().enumerate() {
+                let s = sd(400 + vi as u64);
+                for text in [dna(Kind::Random, d + 2000, 4, Sent::Single, s), dna(Kind::Period(3), d + 2000, 3, Sent::Single, s)] {
+                    i += 1;
+                    let pats = vec![Pat::Sub { start: 100, len: d + 50, subst: Some(d) }, Pat::Sub { start: 700, len: d + 1, subst: Some(d) }];
+                    v.push(mk(text, i, [8u32, 64, 100][i % 3], ss[i % 4], pats));
+                }
+            }
+            // (4) interval size ladder: homopolymer (rows with the same preceding symbol), dinucleotide repeat, identical reads
+            for (vi, &sz) in ladder(131_073).iter().enumerate() {
+                let s = sd(600 + vi as u64);
+                let pats = vec![Pat::Homo { rank: 0, len: 1 }, Pat::Homo { rank: 0, len: 2 }, Pat::Sub { start: 0, len: 7, subst: None }, Pat::Sub { start: 0, len: 9, subst: Some(7) }];
+                for text in [dna(Kind::Homo, sz + 1, 1, Sent::Single, s), dna(Kind::Period(2), 2 * sz + 1, 4, Sent::Single, s), dna(Kind::Period(7), 8 * sz, 4, Sent::Every(8), s)] {
+                    i += 1;
+                    v.push(mk(text, i, ks[i % 8], ss[i % 6], pats.clone()));
+                }
+            }
+        }
+        v
+    }
+
+    pub fn sub() -> LadderSub<Case> {
+        LadderSub {
+            name: "C05/large",
+            cases,
+            weight,
+            check,
+            shards_quick: 16,
+            shards_thorough: 16,
+            must_reach: &[
+                N_LABELS[0], N_LABELS[1], N_LABELS[2], N_LABELS[3], N_LABELS[4], N_LABELS[5], N_LABELS[6], N_LABELS[7], N_LABELS[8], N_LABELS[9], N_LABELS[10], N_LABELS[11],
+                M_LABELS[0], M_LABELS[1], M_LABELS[2], M_LABELS[3], M_LABELS[4], M_LABELS[5], M_LABELS[6], M_LABELS[7], M_LABELS[8], M_LABELS[9], M_LABELS[10],
+                L_LABELS[0], L_LABELS[1], L_LABELS[2], L_LABELS[3], L_LABELS[4], L_LABELS[5], L_LABELS[6], L_LABELS[7], L_LABELS[8], L_LABELS[9],
+                IV_LABELS[0], IV_LABELS[1], IV_LABELS[2], IV_LABELS[3], IV_LABELS[4], IV_LABELS[5], IV_LABELS[6], IV_LABELS[7], IV_LABELS[8], IV_LABELS[9],
+                SEQ_LABELS[0], SEQ_LABELS[1], SEQ_LABELS[2], SEQ_LABELS[3], SEQ_LABELS[4], SEQ_LABELS[5], SEQ_LABELS[6], SEQ_LABELS[7], SEQ_LABELS[8], SEQ_LABELS[9],
+                K_LABELS[0], K_LABELS[3], K_LABELS[7], S_LABELS[0], S_LABELS[3], S_LABELS[7],
+                "interval of >255 rows", "interval of >65535 rows", "Partial with l>255", "Partial with l>65535",
+                "Complete", "Partial", "Absent", "pattern longer than text",
+                "whole interval through the sampled SA", "sub-intervals through the sampled SA",
+                "multi-sentinel text", "$ sentinel not in the alphabet", "borrowed", "owned", "Arc",
+            ],
+        }
+    }
+}
+
 pub fn property() -> Property {
     Property {
         id: "C05",
-        rule: "random: text = body + sentinel with sentinel in {$,!,#,0x00}; bodies over 1-4 letters (DNA, lowercase, the bytes right above the sentinel, 252..255), runs, Fibonacci/Thue-Morse words, periodic words or the full byte range, 0-40 interior sentinels; index alphabet = text symbols + up to 3 absent symbols (the $ sentinel included or not); Occ rate 1..=130 or above n; SA sampling rate 1..=n+2; components borrowed/owned/Arc; 1-6 patterns per index: substrings of the text (sentinels dropped) with an optional substitution and optional random symbols in front, or random over the alphabet, length 1..=30. exhaustive: every text over {$,a,b} up to the stated length, every pattern over {a,b,c} of length <= 4. Oracle: naive scan for the longest occurring pattern suffix and its occurrence list; the result variant, the partial length and the sorted positions obtained through the raw and through the sampled suffix array must agree with it. Non-trivial = some pattern with >= 2 occurrences or a Partial result with l >= 2; distinct = distinct serialised case.",
+        rule: "random: text = body + sentinel with sentinel in {$,!,#,0x00}; bodies over 1-4 letters (DNA, lowercase, the bytes right above the sentinel, 252..255), runs, Fibonacci/Thue-Morse words, periodic words or the full byte range, 0-40 interior sentinels; index alphabet = text symbols + up to 3 absent symbols (the $ sentinel included or not); Occ rate 1..=130 or above n; SA sampling rate 1..=n+2; components borrowed/owned/Arc; 1-6 patterns per index: substrings of the text (sentinels dropped) with an optional substitution and optional random symbols in front, or random over the alphabet, length 1..=30. exhaustive: every text over {$,a,b} up to the stated length, every pattern over {a,b,c} of length <= 4. Oracle: naive scan for the longest occurring pattern suffix and its occurrence list; the result variant, the partial length and the sorted positions obtained through the raw and through the sampled suffix array must agree with it. Non-trivial = some pattern with >= 2 occurrences or a Partial result with l >= 2; distinct = distinct serialised case. LARGE-SCALE (C05/large; enumerated parameter cases): text length, pattern length (up to 2^19, longer than the text), matched length of Partial results, interval size (homopolymer, dinucleotide repeat, identical reads), number of sequences, Occ rate and SA sampling rate on the ladder 255..2^20+1; oracle = Z-function over reverse(pattern)#reverse(text) (longest occurring suffix and all its occurrences in O(n+m)), cross-checked against the naive scan on a truncated copy inside every case; intervals resolved through the raw array completely and through the sampled array completely or on sub-intervals (both ends, around ladder offsets); FMIndexable::{occ,less,bwt} called directly.",
         assumptions: &[
             "sentinel = last byte of the text and strictly smaller than every other text symbol; interior sentinels allowed",
             "the alphabet handed to less/Occ covers all non-sentinel text symbols and has no symbol below the sentinel; a sentinel other than $ is part of it",
@@ -504,6 +923,7 @@ pub fn property() -> Property {
                 watch: true,
             }),
             Box::new(ExhSub { name: "C05/exhaustive", enumerate, check, must_reach: &["Partial with l>=2", "Absent", "multi-sentinel text"] }),
+            Box::new(large::sub()),
         ],
     }
 }
